@@ -255,9 +255,22 @@ pub enum Event {
     Reopen(crate::eng::Cfg),
     /// quiescent-point audit: compare every table with the model
     Check,
+    /// plan-variant family of one logical query, issued from a fresh autocommit transaction: every
+    /// variant must return the same multiset, equal to the model's
+    Probe(Probe),
     /// `n` empty transactions (session opened, then rolled back; every third one committed):
     /// moves the transaction-id counter without touching any table
     TxnBurst(u32),
+}
+
+#[derive(Clone, Debug, PartialEq, Eq, Serialize, Deserialize)]
+pub enum Probe {
+    /// `col = v` through an index, with the literal on the left, and wrapped so that no index applies
+    Point { table: String, col: String, v: i64 },
+    /// `lo <= col <= hi` in every spelling (literal left / right, BETWEEN, wrapped)
+    Range { table: String, col: String, lo: i64, hi: i64 },
+    /// equi-join of two tables in both FROM orders and with the key wrapped
+    Join { left: String, right: String, lcol: String, rcol: String },
 }
 
 impl Event {
@@ -276,6 +289,7 @@ impl Event {
             Event::Reopen(c) => format!("REOPEN cache={} pool={}", c.cache, c.pool),
             Event::Check => "CHECK".into(),
             Event::TxnBurst(n) => format!("{n} empty transactions"),
+            Event::Probe(p) => format!("plan-variant family {:?}", p),
         }
     }
 }
